@@ -352,8 +352,8 @@ pub fn property() -> Property {
         ],
         plan: |tier| match tier {
             Tier::Quick => vec![
-                Step::Pbt { kind: "chunks", cases: 30_000, max_len: 160 },
-                Step::Pbt { kind: "timed", cases: 4_000, max_len: 80 },
+                Step::Pbt { kind: "chunks", cases: 200_000, max_len: 160 },
+                Step::Pbt { kind: "timed", cases: 30_000, max_len: 80 },
             ],
             Tier::Thorough => vec![
                 Step::Pbt { kind: "chunks", cases: 2_000_000, max_len: 160 },
